@@ -10,6 +10,7 @@
 From Coq Require Import ZArith List Bool Lia.
 Import ListNotations.
 Require Import PV.Lib.Bytes PV.Model.HashData PV.Spec.Rfc4880_sig PV.Proofs.HashData_lemmas.
+Require Import PV.Model.Message PV.Model.SignedMsg PV.Proofs.SignedMsg_lemmas.
 Open Scope Z_scope.
 
 Theorem C01_hashdata_injective : forall f f' s s' d,
@@ -68,3 +69,19 @@ Theorem C01_filter_sigs_sound : forall (ids : list bytes) (sigs : list (bytes * 
   In s (filter_sigs ids sigs) <-> In s sigs /\ In (fst s) ids.
 Proof. intros. apply filter_sigs_sound. Qed.
 Print Assumptions C01_filter_sigs_sound.
+
+(* ---------- signatures carried in a message (Model/SignedMsg.v, PGPMessage._signed_data after repair 9dba8e2) ---------- *)
+(* a binary signature on a literal message covers the literal's OCTETS: two literals whose octets differ never share a hash
+   input, whatever format octet, file name or time they carry and however their text would decode *)
+Theorem C01_msg_binary_injective : forall f l l' d, sf_type f = 0 ->
+  msg_hashdata f l = Some d -> msg_hashdata f l' = Some d -> l_data l = l_data l'.
+Proof. exact msg_binary_injective. Qed.
+Print Assumptions C01_msg_binary_injective.
+
+(* the rule before the repair hashed the latin-1 and the UTF-8 encoding of one text alike (closed witness) *)
+Theorem C01_msg_old_rule_refuted :
+  let l1 := {| l_format := 116; l_name := []; l_mtime := 0; l_data := [99; 233] |} in
+  let l2 := {| l_format := 116; l_name := []; l_mtime := 0; l_data := [99; 195; 169] |} in
+  l_data l1 <> l_data l2 /\ signed_data_lit_old l1 = signed_data_lit_old l2 /\ signed_data_lit l1 <> signed_data_lit l2.
+Proof. exact old_rule_collapses_encodings. Qed.
+Print Assumptions C01_msg_old_rule_refuted.
